@@ -54,6 +54,9 @@ type cnDriver struct {
 	pendRts    map[*cnTxSpec]string // proposed runtime lists of not yet executed registrations
 	rtOwner    map[string]string    // registered runtimes -> owning entity
 	epoch      int64
+	blockLog   map[int64]*cnLogged // decided blocks with the validator set they were executed under and the observer\'s app hash
+	nSync      int
+	syncEvery  int64
 	vrf        vrfView   // VRF backend: epoch, its first height, alpha, proofs seen (end of the previous block)
 	lastRh     []*rhView // round state of the runtimes at the end of the previous block
 	noRounds   bool      // do not submit executor commitments
@@ -723,7 +726,15 @@ func (d *cnDriver) step() error {
 		results[i] = r.finalize(b, d.valset)
 	}
 	// observer: call by call with snapshots
+	vcopy := map[int]int64{}
+	for k, v := range d.valset {
+		vcopy[k] = v
+	}
 	results[0] = d.observe(b, metas)
+	if d.blockLog != nil {
+		d.blockLog[h] = &cnLogged{b: *b, valset: vcopy, app: results[0].AppHash}
+		delete(d.blockLog, h-80)
+	}
 	// C01: compare
 	for i := 1; i < len(d.reps); i++ {
 		a, c := results[0], results[i]
@@ -744,6 +755,15 @@ func (d *cnDriver) step() error {
 	res["replicas"] = reps
 	d.emit(res)
 	d.applyValUpdates(results[0].ValUpd)
+	if d.syncEvery > 0 && h%d.syncEvery == d.syncEvery-1 {
+		// a new replica joins by state sync from a replica that keeps checkpoints, then catches up with the chain
+		src := d.reps[1+int(h/d.syncEvery)%2]
+		backend := []string{"pathbadger", "badger"}[int(h/d.syncEvery/2)%2]
+		order := []string{"in-order", "reverse", "corrupt-first", "duplicates", "shuffle"}[d.rng.Intn(5)]
+		if ev := d.stateSync(h, src, backend, order); ev != nil {
+			d.emit(ev)
+		}
+	}
 	for _, t := range mempool {
 		if len(d.sent) < 200 {
 			d.sent = append(d.sent, t) // user transactions only: system transactions never pass CheckTx into a mempool
@@ -898,6 +918,7 @@ func consRun(args []string) int {
 	maxGroup := fs.Int("maxgroup", 2, "largest primary committee size requested by runtime registrations")
 	noRounds := fs.Bool("norounds", false, "do not submit executor commitments")
 	tiny := fs.Bool("tinystake", false, "stake thresholds of 1-2 base units and escrows around them and around one voting-power unit (16)")
+	syncEvery := fs.Int64("statesync", 0, "every N blocks a fresh replica joins by state sync (validator replicas 0 and 1 then keep checkpoints)")
 	minTransact := fs.Int64("mintransact", 0, "staking MinTransactBalance")
 	vrfMode := fs.Bool("vrf", false, "VRF beacon backend: nodes submit VRF proofs, elections use them")
 	vrfThr := fs.Uint64("vrfthreshold", 2, "VRF backend: proofs needed for a high-quality alpha")
@@ -933,7 +954,10 @@ func consRun(args []string) int {
 		return 2
 	}
 	d := &cnDriver{net: net, valset: map[int]int64{}, rng: rand.New(rand.NewSource(*seed)), w: bufio.NewWriterSize(w, 1<<20),
-		paths: map[string]int{}, txKinds: map[string]int{}, nodeRts: map[string]string{}, pendRts: map[*cnTxSpec]string{}, rtOwner: map[string]string{}, maxGroup: *maxGroup, noRounds: *noRounds}
+		paths: map[string]int{}, txKinds: map[string]int{}, nodeRts: map[string]string{}, pendRts: map[*cnTxSpec]string{}, rtOwner: map[string]string{}, maxGroup: *maxGroup, noRounds: *noRounds, syncEvery: *syncEvery}
+	if *syncEvery > 0 {
+		d.blockLog = map[int64]*cnLogged{}
+	}
 	defer d.w.Flush()
 	if *schedFile != "" {
 		raw, err := os.ReadFile(*schedFile)
@@ -951,7 +975,8 @@ func consRun(args []string) int {
 	d.reps = append(d.reps, obs)
 	for i := 0; i < len(net.vals); i++ {
 		be := []string{"pathbadger", "badger"}[i%2]
-		r, err := net.newReplica(fmt.Sprintf("v%d", i), cnReplicaCfg{Backend: be, OnDisk: *onDisk, Identity: i, KeepN: uint64(2 * (i % 2)), MinGas: uint64(i % 2)})
+		r, err := net.newReplica(fmt.Sprintf("v%d", i), cnReplicaCfg{Backend: be, OnDisk: *onDisk, Identity: i, KeepN: uint64(2 * (i % 2)), MinGas: uint64(i % 2),
+			Checkpoints: *syncEvery > 0 && i < 2})
 		if err != nil {
 			fmt.Fprintln(os.Stderr, "replica:", err)
 			return 2
